@@ -217,7 +217,7 @@ pub fn check_program(prog: &Program, seed: u64, thorough: bool, rep: &mut Report
         if nontrivial && ctx.dfa(&built).is_ok() && (k % 3 == 0 || rng.chance(1, 4)) {
             let mut medium: Vec<Vec<u32>> = Vec::new();
             for _ in 0..2 {
-                let n = *rng.pick(&[99usize, 100, 101, 102, 127, 128, 129, 255, 256, 257]) + if rng.chance(1, 3) { rng.usize(40) } else { 0 };
+                let n = if rng.chance(1, 2) { *rng.pick(&[99usize, 100, 101, 102, 127, 128, 129, 255, 256, 257]) } else { 6 + rng.usize(295) };
                 let bg = *rng.pick(&letters);
                 let dens = 2 + rng.below(12);
                 let wd: Vec<u32> = (0..n).map(|_| if rng.chance(1, dens) { *rng.pick(&letters) } else { bg }).collect();
